@@ -174,7 +174,7 @@ struct reg_fn
 
 #define C10_OPS(X)                                                            \
     X(leaf_get) X(leaf_set) X(lv_addr) X(lv_size) X(fview) X(fview_size)      \
-    X(m_hdr) X(m_hdr_bl) X(m_fill_hdr)                                        \
+    X(m_hdr) X(m_hdr_bl) X(m_fill_hdr) X(m_visit)                                      \
     X(arr_at) X(arr_front) X(arr_back) X(arr_data) X(arr_size_bytes)          \
     X(arr_fill) X(arr_assign_n) X(arr_assign_str) X(arr_assign_range)         \
     X(arr_strlen) X(arr_strlen_r)                                             \
@@ -219,6 +219,67 @@ static std::string cstr(const bytes& b)
 {
     return std::string(b.begin(), b.end());
 }
+
+// every value / view handed to us is consumed, so that the access that
+// produced it cannot be optimised away
+template<typename T>
+typename std::enable_if<
+    std::is_enum<T>::value || ::sbepp::is_required_type<T>::value
+        || ::sbepp::is_optional_type<T>::value || ::sbepp::is_set<T>::value,
+    long>::type
+    obs(char*, T v)
+{
+    const bytes b = vh::enc(v);
+    long s = 0;
+    for(auto x : b)
+        s += x;
+    return s;
+}
+template<typename T>
+typename std::enable_if<
+    ::sbepp::is_composite<T>::value || ::sbepp::is_array_type<T>::value
+        || ::sbepp::is_group<T>::value || ::sbepp::is_data<T>::value,
+    long>::type
+    obs(char* p, T v)
+{
+    return ::sbepp::addressof(v) - p;
+}
+
+// ---- sbepp::visit with a visitor that descends everywhere
+struct walker
+{
+    char* base = nullptr;
+    long seen = 0;
+    template<typename T, typename C, typename Tag>
+    void on_message(T m, C& c, Tag)
+    {
+        ::sbepp::visit_children(m, c, *this);
+    }
+    template<typename T, typename C, typename Tag>
+    bool on_group(T g, C& c, Tag)
+    {
+        ::sbepp::visit_children(g, c, *this);
+        return false;
+    }
+    template<typename T, typename C>
+    bool on_entry(T e, C& c)
+    {
+        ::sbepp::visit_children(e, c, *this);
+        return false;
+    }
+    template<typename T, typename Tag>
+    bool on_data(T d, Tag)
+    {
+        seen += obs(base, d);
+        return false;
+    }
+    template<typename T, typename Tag>
+    bool on_field(T f, Tag)
+    {
+        seen += obs(base, f);
+        return false;
+    }
+};
 
 // ---- fixed-length arrays
 template<typename A>
@@ -502,29 +563,6 @@ long data_op(D d, char* p, const call& c)
     }
 }
 
-// ---- cursor accessors: observe the value (scalars) or the address only
-template<typename T>
-typename std::enable_if<
-    std::is_enum<T>::value || ::sbepp::is_required_type<T>::value
-        || ::sbepp::is_optional_type<T>::value || ::sbepp::is_set<T>::value,
-    long>::type
-    obs(char*, T v)
-{
-    const bytes b = vh::enc(v);
-    long s = 0;
-    for(auto x : b)
-        s += x;
-    return s;
-}
-template<typename T>
-typename std::enable_if<
-    ::sbepp::is_composite<T>::value || ::sbepp::is_array_type<T>::value
-        || ::sbepp::is_group<T>::value || ::sbepp::is_data<T>::value,
-    long>::type
-    obs(char* p, T v)
-{
-    return ::sbepp::addressof(v) - p;
-}
 } // namespace c10
 
 #define C10_REG(PREFIX, KEY, ...)                                             \
@@ -543,6 +581,12 @@ typename std::enable_if<
             case ::c10::OP_m_hdr_bl:                                          \
                 return static_cast<long>(                                     \
                     ::sbepp::get_header(m).blockLength().value());            \
+            case ::c10::OP_m_visit:                                           \
+            {                                                                 \
+                ::c10::walker w;                                              \
+                w.base = p;                                                   \
+                return ::sbepp::visit(m, w).seen;                             \
+            }                                                                 \
             default:                                                          \
                 return ::sbepp::addressof(::sbepp::fill_message_header(m))    \
                        - p;                                                   \
@@ -780,6 +824,7 @@ op_t resolve(const image_t& im, const json& o)
     case c10::OP_m_hdr:
     case c10::OP_m_hdr_bl:
     case c10::OP_m_fill_hdr:
+    case c10::OP_m_visit:
         own("msg|" + im.msg);
         break;
     case c10::OP_fview:
